@@ -31,6 +31,12 @@ class SimFault(Exception):
     """Raised by a simulator-owned callback (fault F3)."""
 
 
+class SimCopyFault(TypeError):
+    """Raised when the library tries to deep-copy a simulator-owned callback that cannot be copied (a
+    handler holding a lock, an open file, a generator ...): to the library a TypeError like any other,
+    to the engine a rejected operation - never a harness fault."""
+
+
 class Skip(Exception):
     """The op cannot be planned in the current world (no live slot, wrong shape, ...)."""
 
@@ -55,6 +61,7 @@ class SimCallback(object):
         # are; a label is unique unless the simulated caller makes a twin on purpose (op cb_replace)
         self.label = cid
         self.retired = False  # taken out of its object's list by the caller: owed no notification
+        self.nocopy = False   # a handler that cannot be deep-copied (fault F2: derivations from its object are rejected)
 
     def __eq__(self, other):
         return isinstance(other, SimCallback) and other.label == self.label
@@ -67,6 +74,9 @@ class SimCallback(object):
 
     def __deepcopy__(self, memo):
         w = _CUR[0]
+        if self.nocopy:
+            w.bump('fault_F2_uncopyable_callback_hit')
+            raise SimCopyFault("cannot pickle '_thread.lock' object")
         c = SimCallback(w.new_cid(), clone_of=self.cid)
         # a STRICT handler (one that raises whenever it is notified at its site) is strict by its
         # code, not by a one-shot arming: the copies the library makes of it are strict too
@@ -564,6 +574,10 @@ class World(object):
             except SimFault as e:
                 st.outcome = 'aborted'
                 st.exc = 'SimFault'
+                st.exc_obj = e
+            except SimCopyFault as e:
+                st.outcome = 'rejected'
+                st.exc = 'TypeError'
                 st.exc_obj = e
             except (HarnessError, Skip, AssertionError):
                 raise
@@ -2072,7 +2086,10 @@ class World(object):
         if not cbs:
             return
         cb = cbs[op.get('k', 0) % len(cbs)]
-        if op.get('unregister'):
+        if op.get('nocopy'):
+            cb.nocopy = True
+            self.bump('fault_F2_uncopyable_callback_set')
+        elif op.get('unregister'):
             cb.armed[op['site']] = {'unregister': True}
             self.bump('fault_F7_unregister_armed')
         elif op.get('selfreset'):
